@@ -296,6 +296,11 @@ Proof.
   - destruct (_ && _); [apply fate_same_slots; reflexivity|apply fate_refl].
   - apply fate_same_slots; reflexivity.
   - apply fate_same_slots; reflexivity.
+  - destruct (chcfg_cases e c ch func ctype csize ms s) as [E|(t & Hch & E)]; rewrite E in *; [apply fate_refl|].
+    set (s0 := set_time2 (setz (time2 s) ch t) s) in *.
+    assert (G0 : Good s0) by (eapply Good_cfgchange; [..|exact G]; reflexivity).
+    apply (fate_trans _ s s0 _); [apply frame_outs, sdt_frame|apply fate_same_slots; reflexivity|].
+    eapply sdt_fate; eauto. lia.
 Qed.
 
 (* a history without a command on channel ch and without a restart *)
